@@ -30,6 +30,7 @@ def run(prog, chk):
     # assignment (listed in the statement): a = a must not empty the table before reading it
     C.self_assign(prog, chk, "C02.h", ("HashMap", "HashSet"))
     string_hash_reads_key(prog, chk, "C02.k")
+    C.find_walks_chain(prog, chk, "C02.l", H)
 
 
 def string_hash_reads_key(prog, chk, rid):
